@@ -203,6 +203,8 @@ theorem applyRes_termOk (cfg : Cfg) (pol : Policy) (step : Nat) (tickEv : Ev) (d
   | failed exc failedAt =>
     simp only [applyRes]
     split
+    · exact h
+    split
     · apply termOk_append _ _ h
       simp [termOk, Cmd.isExit]
     all_goals
